@@ -45,6 +45,52 @@ enum WireIn {
     ProtRx(u8),
     /// protected under the transport's own Tx half (a reflected packet)
     ProtTx(u8),
+    /// SRTP / SRTCP-shaped bytes that do not authenticate under any key set
+    Forged(Forge),
+}
+
+/// inbound forgeries: everything here must be rejected by a keyed transport
+#[derive(Clone, Copy, Debug, PartialEq, Eq, PartialOrd, Ord)]
+enum Forge {
+    /// clear RTCP compound + SRTCP trailer (index word with E = 0, arbitrary tag)
+    RtcpClearE0,
+    /// clear RTCP compound + SRTCP trailer (E = 1, arbitrary tag)
+    RtcpClearE1,
+    /// genuine SRTCP under the Rx half of key set ks with the E bit cleared afterwards
+    RtcpGenuineE0(u8),
+    /// genuine SRTCP with the index word changed afterwards
+    RtcpGenuineBadIndex(u8),
+    /// genuine SRTCP with the last bytes of the trailer missing
+    RtcpTruncated(u8),
+    /// clear RTP + arbitrary authentication tag
+    RtpRandomTag,
+    /// genuine SRTP under key set ks protected with rollover counter 1 (the receiver is at 0)
+    RtpWrongRoc(u8),
+}
+const RTCP_FORGERIES: [Forge; 5] = [Forge::RtcpClearE0, Forge::RtcpClearE1, Forge::RtcpGenuineE0(1), Forge::RtcpGenuineBadIndex(1), Forge::RtcpTruncated(1)];
+const RTP_FORGERIES: [Forge; 2] = [Forge::RtpRandomTag, Forge::RtpWrongRoc(1)];
+
+/// The model's view of an inbound datagram is decided FROM ITS BYTES, not from what the generator meant to build:
+/// `Clear` if it is the cleartext packet itself, `Prot ks Rx|Tx` if the reference implementation unprotects it
+/// under that half of key set ks (SRTCP only with the E bit set) to exactly that cleartext, and otherwise forged:
+/// `Prot 0 Rx` -- key set 0 is never installed, so the model predicts that a keyed transport delivers nothing.
+#[derive(Clone, Copy, Debug, PartialEq, Eq)]
+enum Mapped { Clear, Prot(u8, bool), Forged }
+fn map_wire(d: &[u8], clear: &[u8], rtcp: bool, prof: Prof) -> Mapped {
+    if d == clear { return Mapped::Clear; }
+    for ks in KEYSETS {
+        for tx in [false, true] {
+            if ref_decrypt_half(ks, tx, prof, rtcp, d).as_deref() == Some(clear) { return Mapped::Prot(ks, tx); }
+        }
+    }
+    Mapped::Forged
+}
+fn mapped_term(m: Mapped, pid: u32) -> String {
+    match m {
+        Mapped::Clear => format!("(Clear {})", pid),
+        Mapped::Prot(k, tx) => format!("(Prot {} {} {})", k, if tx { "Tx" } else { "Rx" }, pid),
+        Mapped::Forged => format!("(Prot 0 Rx {})", pid),
+    }
 }
 
 /// what the application hands to the raw `send(buf)`
@@ -97,6 +143,7 @@ fn wire_term(w: WireIn, pid: u32) -> String {
         WireIn::Clear => format!("(Clear {})", pid),
         WireIn::ProtRx(k) => format!("(Prot {} Rx {})", k, pid),
         WireIn::ProtTx(k) => format!("(Prot {} Tx {})", k, pid),
+        WireIn::Forged(f) => format!("(Prot 0 Rx {}) (* {:?} *)", pid, f),
     }
 }
 fn op_term(o: &Op, pid: u32) -> String {
@@ -172,7 +219,8 @@ fn quiet<T>(f: impl FnOnce() -> Option<T>) -> Option<T> {
     QUIET.with(|q| q.set(false));
     r
 }
-fn ref_decrypt(ks: u8, prof: Prof, rtcp: bool, d: &[u8]) -> Option<Vec<u8>> {
+fn ref_decrypt(ks: u8, prof: Prof, rtcp: bool, d: &[u8]) -> Option<Vec<u8>> { ref_decrypt_half(ks, true, prof, rtcp, d) }
+fn ref_decrypt_half(ks: u8, tx: bool, prof: Prof, rtcp: bool, d: &[u8]) -> Option<Vec<u8>> {
     if rtcp {
         // the reference returns an SRTCP packet whose E bit is clear WITHOUT checking its tag; such a packet is
         // not protected at all (RFC 3711 3.4: E = 0 means the payload is in clear), so it never counts
@@ -180,7 +228,7 @@ fn ref_decrypt(ks: u8, prof: Prof, rtcp: bool, d: &[u8]) -> Option<Vec<u8>> {
         match idx { Some(i) if i >= 8 && d[i] & 0x80 != 0 => {} _ => return None }
     }
     quiet(|| {
-        let mut c = ref_ctx(ks, true, prof);
+        let mut c = ref_ctx(ks, tx, prof);
         (if rtcp { c.decrypt_rtcp(d) } else { c.decrypt_rtp(d) }).ok().map(|b| b.to_vec())
     })
 }
@@ -408,6 +456,38 @@ fn build_inbound(prot: &mut Protectors, w: WireIn, clear: &[u8], rtcp: bool) -> 
             let c = prot.get(k, tx);
             if rtcp { c.encrypt_rtcp(clear).expect("ref encrypt_rtcp").to_vec() } else { c.encrypt_rtp(clear).expect("ref encrypt_rtp").to_vec() }
         }
+        WireIn::Forged(f) => forge(prot, f, clear),
+    }
+}
+
+fn forge(prot: &mut Protectors, f: Forge, clear: &[u8]) -> Vec<u8> {
+    let prof = prot.prof;
+    let junk = |n: usize, salt: u8| -> Vec<u8> { (0..n).map(|i| (i as u8).wrapping_mul(41).wrapping_add(salt).wrapping_add(clear[clear.len() - 1])).collect() };
+    let rtcp_tag = if prof == Prof::Gcm { 16 } else { 10 };
+    // offset of the E + index word counted from the end
+    let idx_back = if prof == Prof::Gcm { 4 } else { 14 };
+    let trailer = |e: bool| -> Vec<u8> {
+        let word = (if e { 0x8000_0000u32 } else { 0 }) | 7;
+        if prof == Prof::Gcm { let mut t = junk(rtcp_tag, 3); t.extend_from_slice(&word.to_be_bytes()); t }
+        else { let mut t = word.to_be_bytes().to_vec(); t.extend(junk(rtcp_tag, 3)); t }
+    };
+    match f {
+        Forge::RtcpClearE0 => { let mut d = clear.to_vec(); d.extend(trailer(false)); d }
+        Forge::RtcpClearE1 => { let mut d = clear.to_vec(); d.extend(trailer(true)); d }
+        Forge::RtcpGenuineE0(k) => { let mut d = prot.get(k, false).encrypt_rtcp(clear).expect("ref encrypt_rtcp").to_vec(); let i = d.len() - idx_back; d[i] &= 0x7F; d }
+        Forge::RtcpGenuineBadIndex(k) => { let mut d = prot.get(k, false).encrypt_rtcp(clear).expect("ref encrypt_rtcp").to_vec(); let i = d.len() - idx_back + 3; d[i] = d[i].wrapping_add(1); d }
+        Forge::RtcpTruncated(k) => { let mut d = prot.get(k, false).encrypt_rtcp(clear).expect("ref encrypt_rtcp").to_vec(); d.truncate(d.len() - 3); d }
+        Forge::RtpRandomTag => { let mut d = clear.to_vec(); d.extend(junk(match prof { Prof::Sha80 => 10, Prof::Sha32 => 4, Prof::Gcm => 16 }, 9)); d }
+        Forge::RtpWrongRoc(k) => {
+            // a throw-away sender context is walked over the sequence-number wrap, so this packet carries ROC 1
+            let mut c = ref_ctx(k, false, prof);
+            let mut before = clear.to_vec();
+            before[2] = 0xFF; before[3] = 0xFF;
+            let _ = c.encrypt_rtp(&before).expect("ref encrypt_rtp");
+            let mut pkt = clear.to_vec();
+            pkt[2] = 0; pkt[3] = 0;
+            c.encrypt_rtp(&pkt).expect("ref encrypt_rtp").to_vec()
+        }
     }
 }
 
@@ -499,6 +579,8 @@ fn classify(d: &[u8], sub: &[&Submitted], prof: Prof) -> (Option<i32>, i64) {
 
 struct CaseOut {
     obs: Vec<Vec<Obs>>,
+    /// the operation list as the MODEL sees it: inbound datagrams mapped from their bytes (map_wire)
+    op_terms: Vec<String>,
     raws: Vec<Vec<u8>>,
     fail: Option<String>,
     reordered: bool,
@@ -514,7 +596,7 @@ async fn run_case(w: &mut World, c: &Spec) -> CaseOut {
     let mut prot = Protectors { map: BTreeMap::new(), prof: c.prof };
     let _ = w.drain().await;
     if c.tcp { let _ = w.drain_tcp().await; }
-    let mut out = CaseOut { obs: vec![], raws: vec![], fail: None, reordered: false };
+    let mut out = CaseOut { obs: vec![], op_terms: vec![], raws: vec![], fail: None, reordered: false };
     // oracle state, from the operation list only
     let mut keys_a: Option<u8> = None;
     let mut keys_b: Option<u8> = None;
@@ -525,8 +607,17 @@ async fn run_case(w: &mut World, c: &Spec) -> CaseOut {
         if c.tcp { let mut t = w.drain_tcp().await; t.append(&mut dgrams); dgrams = t; }
         // the bytes of protected RTCP that will meet the PLAIN parser (not mandatory, no keys): the model predicts
         // the outcome from them
-        out.raws.push(match (op, &sub) {
-            (Op::RecvRtcp(WireIn::ProtRx(_) | WireIn::ProtTx(_)), Some(s)) if !c.ra && keys_a.is_none() => s.injected.clone().unwrap_or_default(),
+        let mapped: Option<Mapped> = match (op, &sub) {
+            (Op::RecvRtp(_) | Op::RecvRtcp(_), Some(s)) => Some(map_wire(s.injected.as_deref().unwrap_or(&[]), &s.clear, s.rtcp, c.prof)),
+            _ => None,
+        };
+        out.op_terms.push(match (op, mapped) {
+            (Op::RecvRtp(_), Some(m)) => format!("RecvRtp {}", mapped_term(m, pid)),
+            (Op::RecvRtcp(_), Some(m)) => format!("RecvRtcp {}", mapped_term(m, pid)),
+            _ => op_term(op, pid),
+        });
+        out.raws.push(match (op, &sub, mapped) {
+            (Op::RecvRtcp(_), Some(s), Some(Mapped::Prot(..) | Mapped::Forged)) if !c.ra && keys_a.is_none() => s.injected.clone().unwrap_or_default(),
             _ => vec![],
         });
         let mut o: Vec<Obs> = vec![];
@@ -583,10 +674,9 @@ async fn run_case(w: &mut World, c: &Spec) -> CaseOut {
             }
         }
         if c.ra {
-            let legit = match op {
-                Op::RecvRtp(WireIn::ProtRx(k)) | Op::RecvRtcp(WireIn::ProtRx(k)) => keys_a == Some(*k),
-                _ => false,
-            };
+            // authenticated = the reference implementation unprotects the injected bytes under the Rx half of the
+            // INSTALLED key set (SRTCP with E = 0 never counts) and finds the peer's plaintext
+            let legit = matches!(mapped, Some(Mapped::Prot(k, false)) if keys_a == Some(k));
             let inbound_deliveries = ing.len() + beg.len() + listened.len() + rtcp_seen.len();
             if inbound_deliveries > 0 && !legit {
                 set_fail(&mut out.fail, format!("op {} ({:?}): SRTP-mandatory transport delivered a packet to {} although the operation did not inject a packet authenticated under the installed keys (installed: {:?})",
@@ -639,8 +729,9 @@ async fn run_race(w: &mut World, ra: bool, rb: bool, prof: Prof, tasks: Vec<Vec<
                 Op::RecvRtp(wi) | Op::RecvRtcp(wi) => {
                     let rtcp = matches!(op, Op::RecvRtcp(_));
                     let clear = if rtcp { rustrtc::rtp::marshal_rtcp_packets(&[pli(ssrc_in, pid)]).unwrap() } else { rtp_packet(ssrc_in, pid).marshal().unwrap() };
-                    if let WireIn::ProtRx(k) = wi { if installed_a.contains(k) { legit_in.insert(pid as i64); } }
-                    Some(build_inbound(&mut prot, *wi, &clear, rtcp))
+                    let d = build_inbound(&mut prot, *wi, &clear, rtcp);
+                    if let Mapped::Prot(k, false) = map_wire(&d, &clear, rtcp, prof) { if installed_a.contains(&k) { legit_in.insert(pid as i64); } }
+                    Some(d)
                 }
                 _ => None,
             };
@@ -706,7 +797,7 @@ async fn run_race(w: &mut World, ra: bool, rb: bool, prof: Prof, tasks: Vec<Vec<
 fn alphabet() -> Vec<Op> {
     vec![Op::InstallKeys(1), Op::TInstallKeys(3), Op::Send(Raw::Rtp), Op::SendRtp, Op::SendRtcp, Op::SyncBye,
          Op::RecvRtp(WireIn::Clear), Op::RecvRtcp(WireIn::Clear), Op::RecvRtp(WireIn::ProtRx(1)), Op::RecvRtcp(WireIn::ProtRx(1)),
-         Op::RecvRtp(WireIn::ProtRx(2)), Op::SetBridge, Op::ClearBridge, Op::Close]
+         Op::RecvRtp(WireIn::ProtRx(2)), Op::RecvRtcp(WireIn::Forged(Forge::RtcpClearE0)), Op::SetBridge, Op::ClearBridge, Op::Close]
 }
 
 fn random_op(r: &mut Rng, stats: &mut BTreeMap<String, u64>) -> Op {
@@ -714,7 +805,12 @@ fn random_op(r: &mut Rng, stats: &mut BTreeMap<String, u64>) -> Op {
         0..=2 => WireIn::Clear,
         3..=6 => WireIn::ProtRx(*r.pick(&[1u8, 1, 2])),
         7 => WireIn::ProtRx(*r.pick(&[3u8, 4])),
-        _ => WireIn::ProtTx(*r.pick(&[1u8, 2])),
+        8 => WireIn::ProtTx(*r.pick(&[1u8, 2])),
+        _ => WireIn::Forged(Forge::RtcpClearE0),          // replaced by a kind-appropriate forgery below
+    };
+    let fix = |r: &mut Rng, w: WireIn, rtcp: bool| match w {
+        WireIn::Forged(_) => WireIn::Forged(if rtcp { *r.pick(&RTCP_FORGERIES) } else { *r.pick(&RTP_FORGERIES) }),
+        w => w,
     };
     let op = match r.below(100) {
         0..=11 => Op::InstallKeys(*r.pick(&[1u8, 1, 1, 2])),
@@ -723,8 +819,8 @@ fn random_op(r: &mut Rng, stats: &mut BTreeMap<String, u64>) -> Op {
         25..=33 => Op::SendRtp,
         34..=40 => Op::SendRtcp,
         41..=45 => Op::SyncBye,
-        46..=63 => Op::RecvRtp(wi(r)),
-        64..=77 => Op::RecvRtcp(wi(r)),
+        46..=63 => { let w = wi(r); Op::RecvRtp(fix(r, w, false)) }
+        64..=77 => { let w = wi(r); Op::RecvRtcp(fix(r, w, true)) }
         78..=87 => Op::SetBridge,
         88..=93 => Op::ClearBridge,
         _ => Op::Close,
@@ -742,16 +838,28 @@ fn corpus() -> Vec<Spec> {
     for ops in [vec![Send(Raw::Rtp)], vec![SendRtp], vec![SendRtcp], vec![SyncBye], vec![Close], vec![RecvRtp(Clear)], vec![RecvRtcp(Clear)],
                 vec![SetBridge, RecvRtp(Clear)], vec![InstallKeys(1), Send(Raw::Rtp)], vec![InstallKeys(1), SendRtp], vec![InstallKeys(1), SendRtcp],
                 vec![InstallKeys(1), SyncBye], vec![InstallKeys(1), Close], vec![InstallKeys(1), RecvRtp(Clear)], vec![InstallKeys(1), RecvRtcp(Clear)],
-                vec![InstallKeys(1), RecvRtp(ProtRx(2))], vec![InstallKeys(1), RecvRtcp(ProtRx(2))], vec![InstallKeys(1), RecvRtp(ProtRx(1))],
+                vec![InstallKeys(1), RecvRtp(ProtRx(2))], vec![InstallKeys(1), RecvRtcp(ProtRx(2))],
+                vec![InstallKeys(1), RecvRtcp(Forged(Forge::RtcpClearE0))], vec![InstallKeys(1), RecvRtcp(Forged(Forge::RtcpClearE1))],
+                vec![InstallKeys(1), RecvRtcp(Forged(Forge::RtcpGenuineE0(1)))], vec![InstallKeys(1), RecvRtcp(Forged(Forge::RtcpGenuineBadIndex(1)))],
+                vec![InstallKeys(1), RecvRtcp(Forged(Forge::RtcpTruncated(1)))], vec![InstallKeys(1), RecvRtp(Forged(Forge::RtpRandomTag))],
+                vec![InstallKeys(1), RecvRtp(Forged(Forge::RtpWrongRoc(1)))], vec![InstallKeys(1), SetBridge, RecvRtp(Forged(Forge::RtpRandomTag))],
+                vec![RecvRtcp(Forged(Forge::RtcpClearE0))], vec![InstallKeys(1), RecvRtp(ProtRx(1))],
                 vec![InstallKeys(1), RecvRtcp(ProtRx(1))], vec![InstallKeys(1), SetBridge, RecvRtp(ProtRx(1))],
                 vec![InstallKeys(1), SetBridge, RecvRtp(Clear)], vec![InstallKeys(1), TInstallKeys(3), SetBridge, RecvRtp(ProtRx(1))]] {
         v.push(Spec { ra: true, rb: true, prof: Prof::Sha80, udp: false, tcp: false, ops });
+    }
+    for prof in [Prof::Sha32, Prof::Gcm] {
+        for f in RTCP_FORGERIES { v.push(Spec { ra: true, rb: true, prof, udp: false, tcp: false, ops: vec![InstallKeys(1), RecvRtcp(Forged(f))] }); }
+        for f in RTP_FORGERIES { v.push(Spec { ra: true, rb: true, prof, udp: false, tcp: false, ops: vec![InstallKeys(1), RecvRtp(Forged(f))] }); }
     }
     // every sender before keys, every receiver before keys, then the same after keys, with the bridge both ways
     let all = vec![Send(Raw::Rtp), Send(Raw::Short), Send(Raw::Pli), Send(Raw::Sr), Send(Raw::Rr1), SendRtp, SendRtcp, SyncBye, RecvRtp(Clear), RecvRtcp(Clear), RecvRtp(ProtRx(1)), RecvRtcp(ProtRx(1)),
                    SetBridge, RecvRtp(Clear), RecvRtp(ProtRx(1)), InstallKeys(1),
                    Send(Raw::Rtp), Send(Raw::Short), Send(Raw::Pli), Send(Raw::Sr), Send(Raw::Rr1), SendRtp, SendRtcp, SyncBye, RecvRtp(Clear), RecvRtcp(Clear), RecvRtp(ProtRx(1)), RecvRtcp(ProtRx(1)),
                    RecvRtp(ProtRx(2)), RecvRtcp(ProtRx(2)), RecvRtp(ProtTx(1)), RecvRtcp(ProtTx(1)),
+                   RecvRtcp(Forged(Forge::RtcpClearE0)), RecvRtcp(Forged(Forge::RtcpClearE1)), RecvRtcp(Forged(Forge::RtcpGenuineE0(1))),
+                   RecvRtcp(Forged(Forge::RtcpGenuineBadIndex(1))), RecvRtcp(Forged(Forge::RtcpTruncated(1))),
+                   RecvRtp(Forged(Forge::RtpRandomTag)), RecvRtp(Forged(Forge::RtpWrongRoc(1))), RecvRtp(ProtRx(1)), RecvRtcp(ProtRx(1)),
                    TInstallKeys(3), RecvRtp(ProtRx(1)), RecvRtp(Clear), ClearBridge, RecvRtp(ProtRx(1)), RecvRtcp(ProtRx(1)),
                    InstallKeys(2), RecvRtp(ProtRx(1)), RecvRtp(ProtRx(2)), SendRtp, SendRtcp, Close, RecvRtp(ProtRx(2)), RecvRtcp(ProtRx(2)), SendRtp, SyncBye];
     for prof in [Prof::Sha80, Prof::Sha32, Prof::Gcm] {
@@ -841,7 +949,7 @@ async fn main() {
         wire_total += nw as u64;
         deliver_total += nd as u64;
         let term = format!("mkCase {} true {} {} {} {} {}", bool_term(!c.tcp), bool_term(c.ra), bool_term(c.rb),
-            list_term(&c.ops.iter().enumerate().map(|(i, o)| op_term(o, (i + 1) as u32)).collect::<Vec<_>>()),
+            list_term(&res.op_terms),
             list_term(&res.raws.iter().map(|b| bytes_term(b)).collect::<Vec<_>>()),
             list_term(&res.obs.iter().map(|x| list_term(&x.iter().map(obs_term).collect::<Vec<_>>())).collect::<Vec<_>>()));
         // the model is profile- and path-agnostic: the same term for every profile / inbound path
